@@ -524,7 +524,7 @@ pub fn run() {
                 expected_text,
                 show_value(&expected)
               ),
-              json!({"engine":"c10","text":text,"bound_names":names,"expected_text":expected_text,"expected":expected.to_string(),"template":t}),
+              json!({"engine":"c10","text":text,"bound_names":names,"bound_literals":others.iter().map(|(n, _, lit)| json!([n.normal(), lit])).collect::<Vec<_>>(),"expected_text":expected_text,"expected":expected.to_string(),"template":t}),
             );
           }
         }
